@@ -241,8 +241,13 @@ Proof. exact rself_walker_offset_before_fix_refuted. Qed.
    models (rParam rParamI rParamF rToggle rOption rString, rArrayI/F/T/Option "name#N"),
    sub-tree ports of one component - embedded (rRecur), enumerated (rRecurs "name#N/"),
    pointer (rRecurp, the object exists while a toggle of the parent table is on) -,
-   optionally "enabled by" a toggle of the parent table.  [app_of_tree t] is the abstract
-   application: one port per leaf under every expansion of the sub-trees above it.
+   optionally "enabled by" a toggle of the parent table ("tg") or a toggle inside the
+   sub-tree itself ("name/tg", "name#N/tg": element name<i>/ is switched by name<i>/tg; the
+   switch governs the other ports below, not itself); non-parameter ports "name:", among them
+   rSelf's "self:" whose 'enabled by' names a toggle of the same table (it governs every other
+   port of the table and below).  [app_of_tree t] is the abstract application: one port per
+   leaf under every expansion of the sub-trees above it; a non-parameter port has an entry
+   without default (walked, never saved, no theorem sends it a message).
 
    The callback of a leaf (C14's model of the macro, SugarModel.step) stores exactly
    what SaveModel.store says - clamp(v) (rLIMIT = clampK: the core of C14_clamp; for
@@ -380,18 +385,31 @@ Proof. exact walk_addresses. Qed.
 (* with the runtime object of a state [st] - the oracle C09's model asks: a pointer
    sub-tree is NULL while its switch is off, an 'enabled by' toggle answers the state's
    value - the walker is called for exactly the live ports (C09_pruning_enumerated, put
-   together for the whole tree: walk_pruned_wf) *)
+   together for the whole tree: walk_pruned_wf).  The sub-tree ports carry the metadata
+   rEnabledBy writes; both forms of the property are covered: a toggle of the parent table,
+   and the inner switch "name/tg" / "name#N/tg" (the walk does not enter the disabled
+   sub-tree but is applied to the switch, C09's skipped_reports: the switch is the one live
+   port below).  Likewise the rSelf form: while the toggle the table's "self:" port names is
+   off, walk_ports does not look at the table but is applied to that toggle (C09's
+   self_toggle).  switches_ok (decidable, Save/TreeApp.v): the property is a C string; the
+   inner form names a toggle leaf that Ports::operator[] finds in the sub-table (the same one
+   as that table's rSelf, if it has one), the other form is one name (no '/'); the rSelf
+   port is the one Ports::operator[]("self:") finds and names a toggle leaf of its table.
+   Distinct port addresses: the switch is told from the ports it governs by its address. *)
 Theorem C12_walk_live_reports : forall t st,
-  names_ok (sports_of t) = true -> NoDup (map dir_addr (dirs_root t)) ->
+  names_ok (sports_of t) = true -> switches_ok t = true ->
+  NoDup (map dir_addr (dirs_root t)) -> NoDup (map p_path (app_of_tree t)) ->
   walk (Some (oracle_of (app_of_tree t) (dirs_root t) st)) (map render_port (sports_of t)) [] =
   WOk (flat_map (live_reports (app_of_tree t) st) (flat_root t)) [47].
 Proof. exact walk_live_reports. Qed.
 
 (* the former premise "C09": the ports the walk reaches are the live ports, in order.
-   Side conditions: distinct sub-tree addresses, distinct element addresses, no empty array. *)
+   Side conditions: switches_ok, distinct sub-tree addresses, distinct port and element
+   addresses, no empty array. *)
 Theorem C12_walk_stage : forall t st,
   let a := app_of_tree t in
-  names_ok (sports_of t) = true -> NoDup (map dir_addr (dirs_root t)) ->
+  names_ok (sports_of t) = true -> switches_ok t = true ->
+  NoDup (map dir_addr (dirs_root t)) -> NoDup (map p_path a) ->
   NoDup (app_addresses a) -> (forall i, (i < length a)%nat -> (0 < p_len (port_at a i))%nat) ->
   walk_tree t st = filter (live a st) (seq 0 (length a)).
 Proof. exact walk_stage. Qed.
@@ -402,11 +420,12 @@ Proof. exact walk_stage. Qed.
    [full_conditions] (well-formed application, state of the right shape, saved values
    stable), [comparable] (no NaN), [cstrings], [declared] (decidable), an acyclic
    dependency scan, and the decidable conditions on the tree: names_ok, tree_ok (C04's),
-   pt_wf, distinct sub-tree and element addresses. *)
+   pt_wf, switches_ok, distinct sub-tree and element addresses. *)
 Theorem C12_roundtrip_pipeline_tree_walk_partial :
   forall text print_lines scan_text hp tid (t : list pt) apropos fuel F st ps,
     let a := app_of_tree t in
     names_ok (sports_of t) = true -> tree_ok (to_tree hp tid (sports_of t)) -> Forall pt_wf t ->
+    switches_ok t = true ->
     NoDup (map dir_addr (dirs_root t)) -> NoDup (app_addresses a) ->
     print_scan_hypothesis text print_lines scan_text ->
     full_conditions a st -> comparable a st -> cstrings st ->
@@ -426,6 +445,48 @@ Theorem C12_pipeline_tree_walk_nonvacuous :
   walk_tree fx_tree fx_state = [0; 1; 2; 3]%nat /\
   walk_tree fx_tree (initial (app_of_tree fx_tree)) = [0; 2; 3]%nat.
 Proof. exact pipeline_tree_walk_nonvacuous. Qed.
+
+(* the inner-switch form: { sub/ (enabled by "sub/on") -> { on, x }, a#2/ (enabled by "a#2/on")
+   -> { y, on } } - a0/ is switched by a0/on, a1/ by a1/on.  All side conditions of
+   C12_walk_stage hold; a switch governs the other ports of its sub-tree, not itself; from a
+   default-initialised instance the walk reaches the three switches only, with /sub/on and
+   /a1/on on also /sub/x and /a1/y (not /a0/y): the live ports. *)
+Theorem C12_walk_inner_switch_nonvacuous :
+  let a := app_of_tree sw_tree in
+  names_ok (sports_of sw_tree) = true /\ switches_ok sw_tree = true /\
+  NoDup (map dir_addr (dirs_root sw_tree)) /\ NoDup (map p_path a) /\ NoDup (app_addresses a) /\
+  (forall i, (i < length a)%nat -> (0 < p_len (port_at a i))%nat) /\
+  map (fun p => (p_path p, p_soft p)) a =
+    [ ([47; 115; 117; 98; 47; 111; 110], []);       ([47; 115; 117; 98; 47; 120], [0%nat]);
+      ([47; 97; 48; 47; 121], [3%nat]);             ([47; 97; 48; 47; 111; 110], []);
+      ([47; 97; 49; 47; 121], [5%nat]);             ([47; 97; 49; 47; 111; 110], []) ] /\
+  walk_tree sw_tree (initial a) = [0; 3; 5]%nat /\
+  filter (live a (initial a)) (seq 0 (length a)) = [0; 3; 5]%nat /\
+  walk_tree sw_tree sw_state = [0; 1; 3; 4; 5]%nat /\
+  filter (live a sw_state) (seq 0 (length a)) = [0; 1; 3; 4; 5]%nat.
+Proof. exact walk_inner_switch_nonvacuous. Qed.
+
+(* the rSelf form: { x, d/ -> { self: (enabled by "on"), on, y, e/ -> { z } },
+   b/ (enabled by "b/on") -> { self: (enabled by "on"), w, on } } (in b/ both forms name one
+   switch).  "self:" has an entry without default; the switch governs everything else in its
+   table and below.  From a default-initialised instance the walk reaches /x, /d/on, /b/on;
+   with /d/on on everything below d/ as well. *)
+Theorem C12_walk_rself_nonvacuous :
+  let a := app_of_tree self_tree in
+  names_ok (sports_of self_tree) = true /\ switches_ok self_tree = true /\
+  NoDup (map dir_addr (dirs_root self_tree)) /\ NoDup (map p_path a) /\ NoDup (app_addresses a) /\
+  (forall i, (i < length a)%nat -> (0 < p_len (port_at a i))%nat) /\
+  map (fun p => (p_path p, p_soft p, p_nodef p)) a =
+    [ ([47; 120], [], false);
+      ([47; 100; 47; 115; 101; 108; 102], [2%nat], true);    ([47; 100; 47; 111; 110], [], false);
+      ([47; 100; 47; 121], [2%nat], false);                  ([47; 100; 47; 101; 47; 122], [2%nat], false);
+      ([47; 98; 47; 115; 101; 108; 102], [7%nat; 7%nat], true);
+      ([47; 98; 47; 119], [7%nat; 7%nat], false);            ([47; 98; 47; 111; 110], [], false) ] /\
+  walk_tree self_tree (initial a) = [0; 2; 7]%nat /\
+  filter (live a (initial a)) (seq 0 (length a)) = [0; 2; 7]%nat /\
+  walk_tree self_tree self_state = [0; 1; 2; 3; 4; 7]%nat /\
+  filter (live a self_state) (seq 0 (length a)) = [0; 1; 2; 3; 4; 7]%nat.
+Proof. exact walk_rself_nonvacuous. Qed.
 
 (* ======================================================================== *)
 (* Stage 5: the print/scan stage (C10)                                         *)
@@ -472,8 +533,8 @@ Proof. exact body_scans. Qed.
      * [full_conditions] (well-formed application, shape of the state, saved values stable),
        [comparable] (no NaN), [cstrings] (no NUL in strings);
      * [declared] (decidable, C13_declared_computed) and an acyclic dependency scan;
-     * decidable conditions on the tree: names_ok, C04's tree_ok, pt_wf, distinct sub-tree
-       and element addresses;
+     * decidable conditions on the tree: names_ok, C04's tree_ok, pt_wf, switches_ok, distinct
+       sub-tree and element addresses;
      * per saved LINE: [line_reads] - proved for scalar lines with goodc values
        (C12_goodc_line_reads); for lines with floats ("the float-text premise"), plain option
        symbols and "[...]" array lines it is assumed. *)
@@ -481,6 +542,7 @@ Theorem C12_roundtrip_tree_real_partial :
   forall (dec2f dec2d : list Z -> Z) o hp tid (t : list pt) apropos fuel F st ps,
     let a := app_of_tree t in
     names_ok (sports_of t) = true -> tree_ok (to_tree hp tid (sports_of t)) -> Forall pt_wf t ->
+    switches_ok t = true ->
     NoDup (map dir_addr (dirs_root t)) -> NoDup (app_addresses a) ->
     full_conditions a st -> comparable a st -> cstrings st ->
     declared a apropos ->
@@ -594,6 +656,7 @@ Theorem C12_roundtrip_tree_real_lines_partial :
   forall (dec2f dec2d : list Z -> Z) o hp tid (t : list pt) apropos fuel F st ps,
     let a := app_of_tree t in
     names_ok (sports_of t) = true -> tree_ok (to_tree hp tid (sports_of t)) -> Forall pt_wf t ->
+    switches_ok t = true ->
     NoDup (map dir_addr (dirs_root t)) -> NoDup (app_addresses a) ->
     full_conditions a st -> comparable a st -> cstrings st ->
     declared a apropos ->
